@@ -170,9 +170,19 @@ def analyses():
     reg("find_essential_reactions", lambda m, rng, x: sorted(r.id for r in fa.find_essential_reactions(m, processes=x["p"])), True)
     reg("pfba", lambda m, rng, x: _sol(fa.pfba(m)))
     reg("pfba(fraction)", lambda m, rng, x: _sol(fa.pfba(m, fraction_of_optimum=0.5)))
-    reg("moma(linear)", lambda m, rng, x: _sol(fa.moma(m, linear=True), 5))
-    reg("room(linear)", lambda m, rng, x: _sol(fa.room(m, linear=True), 4))
-    reg("room", lambda m, rng, x: _sol(fa.room(m, linear=False), 4))
+    def _ref(m, x):
+        """One reference distribution per (model state, analysis), given explicitly: with the default reference
+        (an internal pFBA solution, not unique) the optimal value of MOMA / ROOM is not a uniquely defined quantity."""
+        if "_ref" not in x:
+            try:
+                x["_ref"] = fa.pfba(m)
+            except Exception:
+                x["_ref"] = None
+        return x["_ref"]
+
+    reg("moma(linear)", lambda m, rng, x: _sol(fa.moma(m, solution=_ref(m, x), linear=True), 5))
+    reg("room(linear)", lambda m, rng, x: _sol(fa.room(m, solution=_ref(m, x), linear=True), 4))
+    reg("room", lambda m, rng, x: _sol(fa.room(m, solution=_ref(m, x), linear=False), 4))
     reg("geometric_fba", lambda m, rng, x: _sol(fa.geometric_fba(m), 4))
     reg("loopless_solution", lambda m, rng, x: _sol(fa.loopless_solution(m), 5))
     reg("single_gene_deletion", lambda m, rng, x: _del(fa.single_gene_deletion(m, processes=x["p"])), True)
@@ -473,16 +483,28 @@ def _warm_start_suboptimum(name, fn, rng, a2, m_use, r1, r2):
     minimisation, the values differ, and the same call on a fresh copy of the model (cold
     basis, same problem) returns the *smaller* one - i.e. on the warm basis left by the
     previous call GLPK declared a non-optimal point optimal."""
-    if name not in MINIMISING:
-        return None
     try:
-        if not (r1[0] == r2[0] == "optimal") or _same(r1[1], r2[1]):
+        if name in MINIMISING:
+            if not (r1[0] == r2[0] == "optimal") or _same(r1[1], r2[1]):
+                return None
+            with warnings.catch_warnings():
+                warnings.simplefilter("ignore")
+                cold = fn(m_use.copy(), rng, a2)
+            if cold[0] == "optimal" and _same(cold[1], min(r1[1], r2[1])):
+                return {"first": r1, "second": r2, "cold": cold}
             return None
-        with warnings.catch_warnings():
-            warnings.simplefilter("ignore")
-            cold = fn(m_use.copy(), rng, a2)
-        if cold[0] == "optimal" and _same(cold[1], min(r1[1], r2[1])):
-            return {"first": r1, "second": r2, "cold": cold}
+        if name.startswith("production_envelope"):
+            # same mechanism seen from a maximisation (thorough tier, seed 3): the model - content and raw solver
+            # problem - is identical before both calls (checked above), yet one call reports other optima.  Proof that
+            # only the solver's warm state differs: a fresh copy (cold basis) and a third call on the same model both
+            # return one and the same of the two results.
+            with warnings.catch_warnings():
+                warnings.simplefilter("ignore")
+                cold = fn(m_use.copy(), rng, a2)
+                third = fn(m_use, rng, a2)
+            for good in (r1, r2):
+                if _same(cold, good) and _same(third, good):
+                    return {"first": r1, "second": r2, "cold": cold, "third": third}
     except Exception:
         return None
     return None
@@ -518,6 +540,12 @@ def run_probe(pr, acc):
     model built from a fixed recipe."""
     A = analyses()
     fn, _p = A[pr["analysis"]]
+    if pr["analysis"] == "room(linear)":
+        # the probe keeps the call form under which the finding was recorded (default reference: the two internal
+        # pFBA references differ by 2e-14, the reported optima by 1.75; exact optimum 0 for both)
+        import cobra.flux_analysis as fa
+
+        fn = lambda m, rng, x: _sol(fa.room(m, linear=True), 4)
     with warnings.catch_warnings():
         warnings.simplefilter("ignore")
         model = gen.build(pr["recipe"])
